@@ -4,6 +4,14 @@
   GeoModel/Valid.lean (domain).
 -/
 import GeoModel.RelateSpec
+import GeoProofs.Lemmas.RelateSpecLemmas
+import GeoProofs.Lemmas.RelateSpecLocate
+import GeoProofs.Lemmas.RelateSpecBBox
+import GeoProofs.Lemmas.RelateSpecSwap
+import GeoProofs.Lemmas.RelateSpecDisjoint
+import GeoProofs.Lemmas.RelateSpecRewrite
+import GeoProofs.Lemmas.RelateSpecReverse
+import Mathlib.Tactic.NormNum
 
 namespace Geo.Proofs.C01
 open Geo
@@ -49,5 +57,570 @@ theorem computeDisjoint_transpose (da ba db bb : Dim) :
 /-- [T] the DE-9IM string has nine characters, row-major (II IB IE BI BB BE EI EB EE). -/
 theorem str_length (m : IM) : m.str.length = 9 := by
   simp [IM.str]
+
+/-! ## 1. The matrix is a maximum over atoms (order / repetition independent) -/
+
+/-- [T] cell `(x, y)` of the accumulated matrix is at least `d` iff `d = F` or some atom located
+`(x, y)` has dimension at least `d`: the matrix is the cell-wise maximum over the atoms. -/
+theorem fold_get (atoms : List Atom) (x y : Pos) (d : Dim) :
+    d.rank ≤ ((Spec.fold atoms).get x y).rank ↔
+      d = .empty ∨ ∃ a ∈ atoms, a.posA = x ∧ a.posB = y ∧ d.rank ≤ a.dim.rank :=
+  Spec.fold_get atoms x y d
+
+/-- [T] `relateParts` is that maximum over its atom list (vertices, sub-segment midpoints, face
+samples), then `EE = 2`. -/
+theorem relateParts_eq_fold (pa pb : Parts) :
+    relateParts pa pb = (Spec.fold (Spec.atomsOf pa pb)).set .outside .outside .two := rfl
+
+/-- [T] permuting the atoms does not change the matrix. -/
+theorem fold_perm {l l' : List Atom} (h : l.Perm l') : Spec.fold l = Spec.fold l' := Spec.fold_perm h
+
+example : Spec.fold [⟨.one, .inside, .outside⟩, ⟨.two, .inside, .inside⟩] =
+    Spec.fold [⟨.two, .inside, .inside⟩, ⟨.one, .inside, .outside⟩] := fold_perm (List.Perm.swap _ _ _)
+
+/-- [T] two atom lists with the same *set* of `(dim, posA, posB)` triples give the same matrix. -/
+theorem fold_subset_congr {l l' : List Atom}
+    (h : ∀ d x y, (∃ a ∈ l, a.dim = d ∧ a.posA = x ∧ a.posB = y) ↔
+      (∃ a ∈ l', a.dim = d ∧ a.posA = x ∧ a.posB = y)) : Spec.fold l = Spec.fold l' :=
+  Spec.fold_subset_congr h
+
+example (a : Atom) : Spec.fold [a, a] = Spec.fold [a] := fold_subset_congr (by simp)
+
+/-- [T] exchanging the two positions of every atom transposes the matrix. -/
+theorem fold_swap (atoms : List Atom) :
+    Spec.fold (atoms.map Spec.swapAB) = (Spec.fold atoms).transpose := Spec.fold_swap atoms
+
+/-! ## 5. Transposition -/
+
+/-- [T] **relating the operands in the other order transposes the matrix** (on parts). -/
+theorem relateParts_transpose (pa pb : Parts) : relateParts pb pa = (relateParts pa pb).transpose :=
+  Spec.relateParts_transpose pa pb
+
+/-- [T] `relateSpec b a = (relateSpec a b)ᵀ` for all geometries. -/
+theorem relateSpec_transpose (a b : Geom) : relateSpec b a = (relateSpec a b).transpose :=
+  Spec.relateParts_transpose (parts a) (parts b)
+
+/-- [T] the intersection vertex of two segments does not depend on their order. -/
+theorem segVertex_symm (s t : Pt × Pt) : segVertex s t = segVertex t s := Spec.segVertex_symm s t
+
+/-- [T] the sorted list of the vertices on a segment is determined by the *set* of vertices
+(duplicate-free lists): `segAtoms` sees the vertex list only through membership. -/
+theorem segAtoms_congr (pa pb : Parts) {verts verts' : List Pt} (h : verts.Perm verts') (hn : verts.Nodup)
+    (s : Pt × Pt) : segAtoms pa pb verts s = segAtoms pa pb verts' s := Spec.segAtoms_congr pa pb h hn s
+
+example (pa pb : Parts) (s : Pt × Pt) :
+    segAtoms pa pb [⟨0, 0⟩, ⟨1, 0⟩] s = segAtoms pa pb [⟨1, 0⟩, ⟨0, 0⟩] s :=
+  segAtoms_congr pa pb (List.Perm.swap _ _ _) (by simp) s
+
+/-! ## 2. Point location is independent of how the point set is written -/
+
+/-- [T] a segment contains the same points in either direction. -/
+theorem lineCoord_symm (a b p : Pt) : lineCoord a b p = lineCoord b a p := Spec.lineCoord_symm a b p
+
+/-- [T] `onAnySeg` depends only on the set of undirected segments. -/
+theorem onAnySeg_congr (p : Pt) {ss ss' : List (Pt × Pt)}
+    (h : ∀ s ∈ ss, s ∈ ss' ∨ s.swap ∈ ss') (h' : ∀ s ∈ ss', s ∈ ss ∨ s.swap ∈ ss) :
+    onAnySeg p ss = onAnySeg p ss' := Spec.onAnySeg_congr p h h'
+
+example (p a b : Pt) : onAnySeg p [(a, b), (a, b)] = onAnySeg p [(b, a)] :=
+  onAnySeg_congr p (by simp) (by simp)
+
+/-- [T] reversing a ring negates the winding number. -/
+theorem windingE_reverse (p : EPt) (ring : List Pt) : windingE p ring.reverse = - windingE p ring :=
+  Spec.windingE_reverse p ring
+
+/-- [T] starting a closed ring at another vertex keeps the winding number. -/
+theorem windingE_rotate (p : EPt) (a b : Pt) (l1 l2 : List Pt) :
+    windingE p (a :: l1 ++ b :: (l2 ++ [a])) = windingE p (b :: l2 ++ a :: (l1 ++ [b])) :=
+  Spec.windingE_rotate p a b l1 l2
+
+/-- [T] the winding number depends only on the multiset of directed edges. -/
+theorem windingE_perm (p : EPt) {r r' : List Pt} (h : (segs r).Perm (segs r')) :
+    windingE p r = windingE p r' := by
+  rw [Spec.windingE_eq_wsum, Spec.windingE_eq_wsum, Spec.wsum_perm p h]
+
+example (p : EPt) (a b c : Pt) : windingE p [a, b, c, a] = windingE p [b, c, a, b] :=
+  windingE_perm p (by
+    simp only [segs]
+    exact (List.perm_append_comm : ([(a, b)] ++ [(b, c), (c, a)]).Perm ([(b, c), (c, a)] ++ [(a, b)])))
+
+/-- [T] ring direction and ring start vertex are `RingEquiv` re-writings (same points on the ring,
+winding numbers vanish together). -/
+theorem ringEquiv_reverse (r : List Pt) : Spec.RingEquiv r r.reverse := Spec.RingEquiv.reverse r
+
+theorem ringEquiv_rotate (a b : Pt) (l1 l2 : List Pt) :
+    Spec.RingEquiv (a :: l1 ++ b :: (l2 ++ [a])) (b :: l2 ++ a :: (l1 ++ [b])) := Spec.RingEquiv.rotate a b l1 l2
+
+/-- [T] re-writing the exterior ring, one hole, or the order of the holes gives a `PolyEquiv`
+polygon (same ring points, same `insidePolyE` for every perturbed point). -/
+theorem polyEquiv_ext {r r' : List Pt} (h : Spec.RingEquiv r r') (ints : List (List Pt)) :
+    Spec.PolyEquiv ⟨r, ints⟩ ⟨r', ints⟩ := Spec.PolyEquiv.of_ext h ints
+
+theorem polyEquiv_hole {r r' : List Pt} (h : Spec.RingEquiv r r') (ext : List Pt) (h1 h2 : List (List Pt)) :
+    Spec.PolyEquiv ⟨ext, h1 ++ r :: h2⟩ ⟨ext, h1 ++ r' :: h2⟩ := Spec.PolyEquiv.of_hole h ext h1 h2
+
+theorem polyEquiv_holes_perm (ext : List Pt) {ints ints' : List (List Pt)} (h : ints.Perm ints') :
+    Spec.PolyEquiv ⟨ext, ints⟩ ⟨ext, ints'⟩ := Spec.PolyEquiv.of_ints_perm ext h
+
+example (ext h1 h2 : List Pt) : Spec.PolyEquiv ⟨ext, [h1, h2]⟩ ⟨ext.reverse, [h2.reverse, h1]⟩ :=
+  (polyEquiv_ext (ringEquiv_reverse ext) _).trans
+    ((polyEquiv_holes_perm _ (List.Perm.swap _ _ _)).trans (polyEquiv_hole (ringEquiv_reverse h2) _ [] [h1]))
+
+/-- [T] `insidePolyE` is invariant under these re-writings (by definition of `PolyEquiv`). -/
+theorem insidePolyE_congr {q q' : Poly} (h : Spec.PolyEquiv q q') (e : EPt) :
+    insidePolyE e q = insidePolyE e q' := h.inside e
+
+example (e : EPt) (ext : List Pt) (ints : List (List Pt)) :
+    insidePolyE e ⟨ext.reverse, ints⟩ = insidePolyE e ⟨ext, ints⟩ :=
+  (insidePolyE_congr (polyEquiv_ext (ringEquiv_reverse ext) ints) e).symm
+
+/-- [T] **`locateParts` and `locateFace` depend only on the point sets written**: every member may
+be re-written (curve direction, start vertex of a closed curve, ring start vertex, ring direction,
+order of holes) and points listed in any order / multiplicity. -/
+theorem locateParts_congr {pts pts' : List Pt} {cs cs' : List (List Pt)} {as as' : List Poly} (p : Pt)
+    (hp : ∀ x, x ∈ pts ↔ x ∈ pts') (hc : List.Forall₂ Spec.CurveEquiv cs cs')
+    (ha : List.Forall₂ Spec.PolyEquiv as as') :
+    locateParts ⟨pts, cs, as⟩ p = locateParts ⟨pts', cs', as'⟩ p := Spec.locateParts_congr p hp hc ha
+
+theorem locateFace_congr {pts pts' : List Pt} {cs cs' : List (List Pt)} {as as' : List Poly} (e : EPt)
+    (ha : List.Forall₂ Spec.PolyEquiv as as') :
+    locateFace ⟨pts, cs, as⟩ e = locateFace ⟨pts', cs', as'⟩ e := Spec.locateFace_congr e ha
+
+/-- [T] members / holes / points listed in another order. -/
+theorem locateParts_perm {pts pts' : List Pt} {cs cs' : List (List Pt)} {as as' : List Poly} (p : Pt)
+    (hp : pts.Perm pts') (hc : cs.Perm cs') (ha : as.Perm as') :
+    locateParts ⟨pts, cs, as⟩ p = locateParts ⟨pts', cs', as'⟩ p := Spec.locateParts_perm p hp hc ha
+
+theorem locateFace_perm {pts pts' : List Pt} {cs cs' : List (List Pt)} {as as' : List Poly} (e : EPt)
+    (ha : as.Perm as') :
+    locateFace ⟨pts, cs, as⟩ e = locateFace ⟨pts', cs', as'⟩ e := Spec.locateFace_perm e ha
+
+example (p a b : Pt) (c1 c2 : List Pt) (q1 q2 : Poly) :
+    locateParts ⟨[a, b], [c1, c2], [q1, q2]⟩ p = locateParts ⟨[b, a], [c2, c1], [q2, q1]⟩ p :=
+  locateParts_perm p (List.Perm.swap _ _ _) (List.Perm.swap _ _ _) (List.Perm.swap _ _ _)
+
+/-- [T] polygon: any `PolyEquiv` re-writing (ring start / direction, hole order) locates alike. -/
+theorem locate_polygon_congr {q q' : Poly} (h : Spec.PolyEquiv q q') (p : Pt) :
+    locate (.polygon q) p = locate (.polygon q') p :=
+  Spec.locateParts_congr p (fun _ => Iff.rfl) List.Forall₂.nil (List.Forall₂.cons h List.Forall₂.nil)
+
+example (p : Pt) (ext : List Pt) (ints : List (List Pt)) :
+    locate (.polygon ⟨ext.reverse, ints⟩) p = locate (.polygon ⟨ext, ints⟩) p :=
+  (locate_polygon_congr (polyEquiv_ext (ringEquiv_reverse ext) ints) p).symm
+
+example (p a b : Pt) (l1 l2 : List Pt) :
+    locate (.polygon ⟨a :: l1 ++ b :: (l2 ++ [a]), []⟩) p = locate (.polygon ⟨b :: l2 ++ a :: (l1 ++ [b]), []⟩) p :=
+  locate_polygon_congr (polyEquiv_ext (ringEquiv_rotate a b l1 l2) []) p
+
+/-- [T] multi-polygon: one member re-written, anywhere in the list. -/
+theorem locate_multiPolygon_member {q q' : Poly} (h : Spec.PolyEquiv q q') (pre post : List Poly) (p : Pt) :
+    locate (.multiPolygon (pre ++ q :: post)) p = locate (.multiPolygon (pre ++ q' :: post)) p :=
+  Spec.locateParts_congr p (fun _ => Iff.rfl) List.Forall₂.nil (Spec.forall₂_poly_at h pre post)
+
+example (p : Pt) (q0 : Poly) (ext : List Pt) :
+    locate (.multiPolygon [q0, ⟨ext, []⟩]) p = locate (.multiPolygon [q0, ⟨ext.reverse, []⟩]) p :=
+  locate_multiPolygon_member (polyEquiv_ext (ringEquiv_reverse ext) []) [q0] [] p
+
+/-- [T] multi-polygon / multi-line-string / multi-point: member order is irrelevant. -/
+theorem locate_multiPolygon_perm {qs qs' : List Poly} (h : qs.Perm qs') (p : Pt) :
+    locate (.multiPolygon qs) p = locate (.multiPolygon qs') p :=
+  Spec.locateParts_perm p (List.Perm.refl _) (List.Perm.refl _) h
+
+theorem locate_multiLineString_perm {ls ls' : List (List Pt)} (h : ls.Perm ls') (p : Pt) :
+    locate (.multiLineString ls) p = locate (.multiLineString ls') p :=
+  Spec.locateParts_perm p (List.Perm.refl _) h (List.Perm.refl _)
+
+theorem locate_multiPoint_perm {ps ps' : List Pt} (h : ps.Perm ps') (p : Pt) :
+    locate (.multiPoint ps) p = locate (.multiPoint ps') p :=
+  Spec.locateParts_perm p h (List.Perm.refl _) (List.Perm.refl _)
+
+example (p : Pt) (l1 l2 l3 : List Pt) :
+    locate (.multiLineString [l1, l2, l3]) p = locate (.multiLineString [l2, l1, l3]) p :=
+  locate_multiLineString_perm (List.Perm.swap _ _ _) p
+
+/-- [T] line string: direction is irrelevant; so is the start vertex of a closed one. -/
+theorem locate_lineString_reverse (cs : List Pt) (p : Pt) :
+    locate (.lineString cs.reverse) p = locate (.lineString cs) p :=
+  (Spec.locateParts_congr p (fun _ => Iff.rfl)
+    (List.Forall₂.cons (Spec.CurveEquiv.reverse cs) List.Forall₂.nil) List.Forall₂.nil).symm
+
+theorem locate_lineString_rotate (a b : Pt) (l1 l2 : List Pt) (p : Pt) :
+    locate (.lineString (a :: l1 ++ b :: (l2 ++ [a]))) p = locate (.lineString (b :: l2 ++ a :: (l1 ++ [b]))) p :=
+  Spec.locateParts_congr p (fun _ => Iff.rfl)
+    (List.Forall₂.cons (Spec.CurveEquiv.rotate a b l1 l2) List.Forall₂.nil) List.Forall₂.nil
+
+/-- [T] multi-line-string: one member re-written (direction / closed start), anywhere in the list. -/
+theorem locate_multiLineString_member {c c' : List Pt} (h : Spec.CurveEquiv c c') (pre post : List (List Pt))
+    (p : Pt) :
+    locate (.multiLineString (pre ++ c :: post)) p = locate (.multiLineString (pre ++ c' :: post)) p :=
+  Spec.locateParts_congr p (fun _ => Iff.rfl) (Spec.forall₂_curve_at h pre post) List.Forall₂.nil
+
+example (p : Pt) (l0 c : List Pt) :
+    locate (.multiLineString [l0, c]) p = locate (.multiLineString [l0, c.reverse]) p :=
+  locate_multiLineString_member (Spec.CurveEquiv.reverse c) [l0] [] p
+
+/-- [T] the same point set through another geometry type: `Rect` / `Triangle` as `Polygon`, `Line` as
+`LineString`, singleton `Multi*` and one-member collections as the member. These hold at the level
+of `parts`, hence for `locate` *and* for the whole matrix. -/
+theorem parts_rect (mn mx : Pt) :
+    parts (.rect mn mx) = parts (.polygon ⟨SM.rectToPolygon ⟨mn, mx⟩, []⟩) := by simp [parts]
+
+theorem parts_triangle (a b c : Pt) : parts (.triangle a b c) = parts (.polygon ⟨[a, b, c, a], []⟩) := by
+  simp [parts]
+
+theorem parts_line (a b : Pt) : parts (.line a b) = parts (.lineString [a, b]) := by simp [parts]
+
+theorem parts_multiPoint_single (a : Pt) : parts (.multiPoint [a]) = parts (.point a) := by simp [parts]
+
+theorem parts_multiLineString_single (cs : List Pt) : parts (.multiLineString [cs]) = parts (.lineString cs) := by
+  simp [parts]
+
+theorem parts_multiPolygon_single (q : Poly) : parts (.multiPolygon [q]) = parts (.polygon q) := by
+  simp [parts]
+
+theorem parts_collection_single (g : Geom) : parts (.collection [g]) = parts g := by
+  simp [parts, partsList, Parts.append]
+
+theorem locate_rect (mn mx p : Pt) :
+    locate (.rect mn mx) p = locate (.polygon ⟨SM.rectToPolygon ⟨mn, mx⟩, []⟩) p := by
+  unfold locate; rw [parts_rect]
+
+theorem locate_triangle (a b c p : Pt) :
+    locate (.triangle a b c) p = locate (.polygon ⟨[a, b, c, a], []⟩) p := by
+  unfold locate; rw [parts_triangle]
+
+theorem locate_line (a b p : Pt) : locate (.line a b) p = locate (.lineString [a, b]) p := by
+  unfold locate; rw [parts_line]
+
+theorem locate_collection_single (g : Geom) (p : Pt) : locate (.collection [g]) p = locate g p := by
+  unfold locate; rw [parts_collection_single]
+
+/-- [T] the matrix only sees `parts`: equal parts, equal matrices (both operand positions). -/
+theorem relateSpec_congr {a a' b b' : Geom} (ha : parts a = parts a') (hb : parts b = parts b') :
+    relateSpec a b = relateSpec a' b' := by
+  unfold relateSpec; rw [ha, hb]
+
+example (mn mx a b c : Pt) :
+    relateSpec (.rect mn mx) (.triangle a b c) =
+      relateSpec (.polygon ⟨SM.rectToPolygon ⟨mn, mx⟩, []⟩) (.collection [.polygon ⟨[a, b, c, a], []⟩]) :=
+  relateSpec_congr (parts_rect mn mx) ((parts_triangle a b c).trans (parts_collection_single _).symm)
+
+/-! ## 3. Boundary semantics (mod-2 rule) -/
+
+/-- [T] purely linear parts: a point on a curve is a boundary point iff it is an end point of an odd
+number of open curves (both ends counted), interior otherwise. -/
+theorem locateParts_linear_boundary (ps : Parts) (p : Pt) (ha : ps.areas = []) (hp : ps.pts = []) :
+    locateParts ps p = .onBoundary ↔ onAnySeg p ps.curveSegs = true ∧ endpointCount p ps.curves % 2 = 1 :=
+  Spec.locateParts_linear_boundary ps p ha hp
+
+theorem locateParts_linear_inside (ps : Parts) (p : Pt) (ha : ps.areas = []) (hp : ps.pts = []) :
+    locateParts ps p = .inside ↔ onAnySeg p ps.curveSegs = true ∧ endpointCount p ps.curves % 2 = 0 :=
+  Spec.locateParts_linear_inside ps p ha hp
+
+theorem locateParts_linear_outside (ps : Parts) (p : Pt) (ha : ps.areas = []) (hp : ps.pts = []) :
+    locateParts ps p = .outside ↔ onAnySeg p ps.curveSegs = false :=
+  Spec.locateParts_linear_outside ps p ha hp
+
+/-- two line strings sharing an end point: the shared point is counted twice, hence interior -/
+example : endpointCount ⟨1, 0⟩ [[⟨0, 0⟩, ⟨1, 0⟩], [⟨1, 0⟩, ⟨1, 1⟩]] % 2 = 0 := by decide
+example : endpointCount ⟨0, 0⟩ [[⟨0, 0⟩, ⟨1, 0⟩], [⟨1, 0⟩, ⟨1, 1⟩]] % 2 = 1 := by decide
+
+example : locateParts ⟨[], [[⟨0, 0⟩, ⟨1, 0⟩], [⟨1, 0⟩, ⟨1, 1⟩]], []⟩ ⟨0, 0⟩ = .onBoundary ↔
+    onAnySeg ⟨0, 0⟩ (Parts.curveSegs ⟨[], [[⟨0, 0⟩, ⟨1, 0⟩], [⟨1, 0⟩, ⟨1, 1⟩]], []⟩) = true ∧
+      endpointCount ⟨0, 0⟩ [[⟨0, 0⟩, ⟨1, 0⟩], [⟨1, 0⟩, ⟨1, 1⟩]] % 2 = 1 :=
+  locateParts_linear_boundary _ _ rfl rfl
+
+/-- [T] purely areal parts: a boundary point lies on a ring segment (or is a single-coordinate ring). -/
+theorem locateParts_areal_boundary (ps : Parts) (p : Pt) (hc : ps.curves = []) (hp : ps.pts = [])
+    (h : locateParts ps p = .onBoundary) :
+    onAnySeg p ps.areaSegs = true ∨ ∃ q ∈ ps.areas, [p] ∈ q.rings :=
+  Spec.locateParts_areal_boundary ps p hc hp h
+
+/-- [T] conversely a ring point is a boundary point unless some member polygon has it strictly
+inside (off its rings, inside its shell, outside its holes). -/
+theorem locateParts_areal_boundary_conv (ps : Parts) (p : Pt) (hc : ps.curves = []) (hp : ps.pts = [])
+    (hin : Spec.inAnyPoly ps.areas p = false)
+    (h : onAnySeg p ps.areaSegs = true ∨ ∃ q ∈ ps.areas, [p] ∈ q.rings) :
+    locateParts ps p = .onBoundary := Spec.locateParts_areal_boundary_conv ps p hc hp hin h
+
+/-- [T] point parts: interior iff listed, never boundary. -/
+theorem locateParts_points_inside (ps : Parts) (p : Pt) (ha : ps.areas = []) (hc : ps.curves = []) :
+    locateParts ps p = .inside ↔ p ∈ ps.pts := Spec.locateParts_points_inside ps p ha hc
+
+theorem locateParts_points_not_boundary (ps : Parts) (p : Pt) (ha : ps.areas = []) (hc : ps.curves = []) :
+    locateParts ps p ≠ .onBoundary := Spec.locateParts_points_not_boundary ps p ha hc
+
+example : locateParts ⟨[⟨1, 2⟩, ⟨3, 4⟩], [], []⟩ ⟨3, 4⟩ = .inside :=
+  (locateParts_points_inside _ _ rfl rfl).mpr (by simp)
+
+/-! ## 4. Disjoint-envelope lemma -/
+
+/-- [T] a point strictly outside the bounding box of all coordinates of the parts (on any of the
+four sides) is located `outside`; only the "left" side uses that exterior rings are closed. -/
+theorem locate_outside_bbox (ps : Parts) (p : Pt)
+    (h : (∀ c ∈ Spec.allCoords ps, c.x < p.x) ∨
+         ((∀ c ∈ Spec.allCoords ps, p.x < c.x) ∧ ∀ q ∈ ps.areas, q.ext.head? = q.ext.getLast?) ∨
+         (∀ c ∈ Spec.allCoords ps, c.y < p.y) ∨ (∀ c ∈ Spec.allCoords ps, p.y < c.y)) :
+    locateParts ps p = .outside := Spec.locate_outside_bbox ps p h
+
+/-- [T] the same for the perturbed face samples. -/
+theorem locateFace_outside_bbox (ps : Parts) (e : EPt)
+    (h : (∀ c ∈ Spec.allCoords ps, c.x < e.x0) ∨
+         ((∀ c ∈ Spec.allCoords ps, e.x0 < c.x) ∧ ∀ q ∈ ps.areas, q.ext.head? = q.ext.getLast?) ∨
+         (∀ c ∈ Spec.allCoords ps, c.y < e.y0) ∨ (∀ c ∈ Spec.allCoords ps, e.y0 < c.y)) :
+    locateFace ps e = .outside := Spec.locateFace_outside_bbox ps e h
+
+/-- the triangle `(0,0) (2,0) (0,2)`: a point to its left (needs the closed ring) and one above -/
+example : locateParts ⟨[], [], [⟨[⟨0, 0⟩, ⟨2, 0⟩, ⟨0, 2⟩, ⟨0, 0⟩], []⟩]⟩ ⟨-1, 1⟩ = .outside := by
+  apply locate_outside_bbox
+  right; left
+  constructor
+  · intro c hc
+    simp [Spec.allCoords, Poly.rings] at hc
+    rcases hc with rfl | rfl | rfl | rfl <;> norm_num
+  · intro q hq
+    simp at hq
+    subst hq
+    rfl
+
+example : locateParts ⟨[], [], [⟨[⟨0, 0⟩, ⟨2, 0⟩, ⟨0, 2⟩, ⟨0, 0⟩], []⟩]⟩ ⟨1, 3⟩ = .outside := by
+  apply locate_outside_bbox
+  right; right; left
+  intro c hc
+  simp [Spec.allCoords, Poly.rings] at hc
+  rcases hc with rfl | rfl | rfl | rfl <;> norm_num
+
+/-- [T] every atom of operands whose coordinate bounding boxes are strictly separated along an axis
+is exterior to one of the operands. -/
+theorem atom_outside_of_sep {pa pb : Parts} (h : Spec.Sep pa pb) (ca : Spec.ClosedExt pa) (cb : Spec.ClosedExt pb)
+    {x : Atom} (hx : x ∈ Spec.atomsOf pa pb) : x.posA = .outside ∨ x.posB = .outside :=
+  Spec.atom_outside_of_sep h ca cb hx
+
+/-- [T] **disjoint-envelope shortcut, matrix form**: for operands with strictly separated bounding
+boxes (exterior rings closed) the specification's matrix has `F` in II, IB, BI, BB — the shape
+`FF*FF****` that `compute_disjoint` emits. -/
+theorem relateParts_sep {pa pb : Parts} (h : Spec.Sep pa pb) (ca : Spec.ClosedExt pa) (cb : Spec.ClosedExt pb)
+    (x y : Pos) (hx : x ≠ .outside) (hy : y ≠ .outside) : (relateParts pa pb).get x y = .empty :=
+  Spec.relateParts_sep h ca cb x y hx hy
+
+/-- [T] the shortcut's own matrix has that shape. -/
+theorem computeDisjoint_shape (da ba db bb : Dim) (x y : Pos) (hx : x ≠ .outside) (hy : y ≠ .outside) :
+    (computeDisjoint da ba db bb).get x y = .empty := by
+  cases da <;> cases ba <;> cases db <;> cases bb <;> cases x <;> cases y <;> first | rfl | contradiction
+
+/-- a segment left of a triangle -/
+example : (relateParts ⟨[], [[⟨0, 0⟩, ⟨1, 1⟩]], []⟩ ⟨[], [], [⟨[⟨5, 0⟩, ⟨7, 0⟩, ⟨5, 2⟩, ⟨5, 0⟩], []⟩]⟩).get
+    .inside .onBoundary = .empty := by
+  apply relateParts_sep _ _ _ _ _ (by decide) (by decide)
+  · left
+    intro a ha b hb
+    simp [Spec.allCoords, Poly.rings] at ha hb
+    rcases ha with rfl | rfl <;> rcases hb with rfl | rfl | rfl | rfl <;> norm_num
+  · intro q hq; simp at hq
+  · intro q hq
+    simp at hq
+    subst hq
+    rfl
+
+/-! ## 2'. The whole matrix is independent of how an operand is written (segment directions kept) -/
+
+/-- [T] **the matrix does not depend on how either operand is written**, for `PartsEquiv` re-writings:
+same directed segments as a multiset, same single coordinates and isolated points as sets, same
+point location. -/
+theorem relateParts_congr {pa pa' pb pb' : Parts} (ha : Spec.PartsEquiv pa pa') (hb : Spec.PartsEquiv pb pb') :
+    relateParts pa pb = relateParts pa' pb' :=
+  (Spec.relateParts_congr_left ha pb).trans (Spec.relateParts_congr_right pa' hb)
+
+theorem relateSpec_congr_parts {a a' b b' : Geom} (ha : Spec.PartsEquiv (parts a) (parts a'))
+    (hb : Spec.PartsEquiv (parts b) (parts b')) : relateSpec a b = relateSpec a' b' :=
+  relateParts_congr ha hb
+
+/-- [T] members re-written one by one (closed curve / ring started at another vertex, holes in
+another order) and members / points listed in another order are `PartsEquiv` re-writings. -/
+theorem partsEquiv_members (pts : List Pt) {cs cs' : List (List Pt)} {as as' : List Poly}
+    (hc : List.Forall₂ Spec.CurveRewrite cs cs') (ha : List.Forall₂ Spec.PolyRewrite as as') :
+    Spec.PartsEquiv ⟨pts, cs, as⟩ ⟨pts, cs', as'⟩ := Spec.PartsEquiv.members pts hc ha
+
+theorem partsEquiv_perm {pts pts' : List Pt} {cs cs' : List (List Pt)} {as as' : List Poly}
+    (hp : pts.Perm pts') (hc : cs.Perm cs') (ha : as.Perm as') :
+    Spec.PartsEquiv ⟨pts, cs, as⟩ ⟨pts', cs', as'⟩ := Spec.PartsEquiv.perm hp hc ha
+
+/-- [T] polygon with the exterior ring started at another vertex: same matrix, either position. -/
+theorem relateSpec_polygon_ext_rotate (a b : Pt) (l1 l2 : List Pt) (ints : List (List Pt)) (g : Geom) :
+    relateSpec (.polygon ⟨a :: l1 ++ b :: (l2 ++ [a]), ints⟩) g =
+      relateSpec (.polygon ⟨b :: l2 ++ a :: (l1 ++ [b]), ints⟩) g :=
+  relateSpec_congr_parts
+    (Spec.PartsEquiv.members [] List.Forall₂.nil
+      (List.Forall₂.cons (Spec.PolyRewrite.ext_rotate a b l1 l2 ints) List.Forall₂.nil))
+    (Spec.PartsEquiv.refl _)
+
+/-- [T] polygon with a hole started at another vertex. -/
+theorem relateSpec_polygon_hole_rotate (ext : List Pt) (h1 h2 : List (List Pt)) (a b : Pt) (l1 l2 : List Pt)
+    (g : Geom) :
+    relateSpec (.polygon ⟨ext, h1 ++ (a :: l1 ++ b :: (l2 ++ [a])) :: h2⟩) g =
+      relateSpec (.polygon ⟨ext, h1 ++ (b :: l2 ++ a :: (l1 ++ [b])) :: h2⟩) g :=
+  relateSpec_congr_parts
+    (Spec.PartsEquiv.members [] List.Forall₂.nil
+      (List.Forall₂.cons (Spec.PolyRewrite.hole_rotate ext h1 h2 a b l1 l2) List.Forall₂.nil))
+    (Spec.PartsEquiv.refl _)
+
+/-- [T] polygon with the holes in another order. -/
+theorem relateSpec_polygon_holes_perm (ext : List Pt) {ints ints' : List (List Pt)} (h : ints.Perm ints')
+    (g : Geom) : relateSpec (.polygon ⟨ext, ints⟩) g = relateSpec (.polygon ⟨ext, ints'⟩) g :=
+  relateSpec_congr_parts
+    (Spec.PartsEquiv.members [] List.Forall₂.nil
+      (List.Forall₂.cons (Spec.PolyRewrite.holes_perm ext h) List.Forall₂.nil))
+    (Spec.PartsEquiv.refl _)
+
+example (ext h1 h2 : List Pt) (g : Geom) :
+    relateSpec (.polygon ⟨ext, [h1, h2]⟩) g = relateSpec (.polygon ⟨ext, [h2, h1]⟩) g :=
+  relateSpec_polygon_holes_perm ext (List.Perm.swap _ _ _) g
+
+/-- [T] closed line string started at another vertex. -/
+theorem relateSpec_lineString_rotate (a b : Pt) (l1 l2 : List Pt) (g : Geom) :
+    relateSpec (.lineString (a :: l1 ++ b :: (l2 ++ [a]))) g =
+      relateSpec (.lineString (b :: l2 ++ a :: (l1 ++ [b]))) g :=
+  relateSpec_congr_parts
+    (Spec.PartsEquiv.members [] (List.Forall₂.cons (Spec.CurveRewrite.rotate a b l1 l2) List.Forall₂.nil)
+      List.Forall₂.nil)
+    (Spec.PartsEquiv.refl _)
+
+/-- [T] member order of `Multi*` geometries is irrelevant for the matrix. -/
+theorem relateSpec_multiPolygon_perm {qs qs' : List Poly} (h : qs.Perm qs') (g : Geom) :
+    relateSpec (.multiPolygon qs) g = relateSpec (.multiPolygon qs') g :=
+  relateSpec_congr_parts (Spec.PartsEquiv.perm (List.Perm.refl _) (List.Perm.refl _) h) (Spec.PartsEquiv.refl _)
+
+theorem relateSpec_multiLineString_perm {ls ls' : List (List Pt)} (h : ls.Perm ls') (g : Geom) :
+    relateSpec (.multiLineString ls) g = relateSpec (.multiLineString ls') g :=
+  relateSpec_congr_parts (Spec.PartsEquiv.perm (List.Perm.refl _) h (List.Perm.refl _)) (Spec.PartsEquiv.refl _)
+
+theorem relateSpec_multiPoint_perm {ps ps' : List Pt} (h : ps.Perm ps') (g : Geom) :
+    relateSpec (.multiPoint ps) g = relateSpec (.multiPoint ps') g :=
+  relateSpec_congr_parts (Spec.PartsEquiv.perm h (List.Perm.refl _) (List.Perm.refl _)) (Spec.PartsEquiv.refl _)
+
+example (q1 q2 q3 : Poly) (g : Geom) :
+    relateSpec (.multiPolygon [q1, q2, q3]) g = relateSpec (.multiPolygon [q2, q1, q3]) g :=
+  relateSpec_multiPolygon_perm (List.Perm.swap _ _ _) g
+
+/-- the same in the second position, by transposition -/
+example (q1 q2 : Poly) (g : Geom) :
+    relateSpec g (.multiPolygon [q1, q2]) = relateSpec g (.multiPolygon [q2, q1]) :=
+  relateSpec_congr_parts (Spec.PartsEquiv.refl _)
+    (Spec.PartsEquiv.perm (List.Perm.refl _) (List.Perm.refl _) (List.Perm.swap _ _ _))
+
+/-! ## 2''. … and of the direction of its rings and curves -/
+
+/-- [T] the intersection vertex of two segments does not depend on their directions; a segment has
+no intersection vertex with itself. -/
+theorem segVertex_swap_left (s t : Pt × Pt) : segVertex s.swap t = segVertex s t := Spec.segVertex_swap_left s t
+
+theorem segVertex_self (s : Pt × Pt) : segVertex s s = [] := Spec.segVertex_self s
+
+/-- [T] the intersection vertices depend only on the *set* of segments. -/
+theorem mem_pairVertices_iff (ss : List (Pt × Pt)) (x : Pt) :
+    x ∈ pairVertices ss ↔ ∃ s ∈ ss, ∃ t ∈ ss, x ∈ segVertex s t := Spec.mem_pairVertices_iff ss x
+
+/-- [T] the atoms of a segment, as a set, do not depend on its direction. -/
+theorem mem_segAtoms_swap (pa pb : Parts) {verts : List Pt} (hn : verts.Nodup) (s : Pt × Pt) (x : Atom) :
+    x ∈ segAtoms pa pb verts s.swap ↔ x ∈ segAtoms pa pb verts s := Spec.mem_segAtoms_swap pa pb hn s x
+
+example (pa pb : Parts) (a b : Pt) (x : Atom) :
+    x ∈ segAtoms pa pb [⟨0, 0⟩, ⟨1, 0⟩] (b, a) ↔ x ∈ segAtoms pa pb [⟨0, 0⟩, ⟨1, 0⟩] (a, b) :=
+  mem_segAtoms_swap pa pb (by simp) (a, b) x
+
+/-- [T] **the matrix does not depend on how either operand is written, segment directions
+included** (`PartsSame`: same undirected segments as sets, same single coordinates and isolated
+points, same point location). -/
+theorem relateParts_same {pa pa' pb pb' : Parts} (ha : Spec.PartsSame pa pa') (hb : Spec.PartsSame pb pb') :
+    relateParts pa pb = relateParts pa' pb' :=
+  (Spec.relateParts_same_left ha pb).trans (Spec.relateParts_same_right pa' hb)
+
+theorem relateSpec_same_parts {a a' b b' : Geom} (ha : Spec.PartsSame (parts a) (parts a'))
+    (hb : Spec.PartsSame (parts b) (parts b')) : relateSpec a b = relateSpec a' b' :=
+  relateParts_same ha hb
+
+/-- [T] members re-written one by one with directions free (`PolySame`: ring start vertex, ring
+direction, hole order; `CurveSame`: direction, closed start vertex) give `PartsSame` operands. -/
+theorem partsSame_members (pts : List Pt) {cs cs' : List (List Pt)} {as as' : List Poly}
+    (hc : List.Forall₂ Spec.CurveSame cs cs') (ha : List.Forall₂ Spec.PolySame as as') :
+    Spec.PartsSame ⟨pts, cs, as⟩ ⟨pts, cs', as'⟩ := Spec.PartsSame.members pts hc ha
+
+/-- [T] polygon with any `PolySame` re-writing: same matrix. -/
+theorem relateSpec_polygon_same {q q' : Poly} (h : Spec.PolySame q q') (g : Geom) :
+    relateSpec (.polygon q) g = relateSpec (.polygon q') g :=
+  relateSpec_same_parts
+    (Spec.PartsSame.members [] List.Forall₂.nil (List.Forall₂.cons h List.Forall₂.nil))
+    (Spec.PartsSame.refl _)
+
+/-- [T] polygon with the exterior ring reversed. -/
+theorem relateSpec_polygon_ext_reverse (ext : List Pt) (ints : List (List Pt)) (g : Geom) :
+    relateSpec (.polygon ⟨ext, ints⟩) g = relateSpec (.polygon ⟨ext.reverse, ints⟩) g :=
+  relateSpec_polygon_same (Spec.PolySame.ext_reverse ext ints) g
+
+/-- [T] polygon with a hole reversed. -/
+theorem relateSpec_polygon_hole_reverse (ext : List Pt) (h1 h2 : List (List Pt)) (r : List Pt) (g : Geom) :
+    relateSpec (.polygon ⟨ext, h1 ++ r :: h2⟩) g = relateSpec (.polygon ⟨ext, h1 ++ r.reverse :: h2⟩) g :=
+  relateSpec_polygon_same (Spec.PolySame.hole_reverse ext h1 h2 r) g
+
+/-- ring start *and* direction *and* hole order at once -/
+example (a b : Pt) (l1 l2 h1 h2 : List Pt) (g : Geom) :
+    relateSpec (.polygon ⟨a :: l1 ++ b :: (l2 ++ [a]), [h1, h2]⟩) g =
+      relateSpec (.polygon ⟨(b :: l2 ++ a :: (l1 ++ [b])).reverse, [h2, h1.reverse]⟩) g :=
+  relateSpec_polygon_same
+    (((Spec.PolySame.of_rewrite (Spec.PolyRewrite.ext_rotate a b l1 l2 [h1, h2])).trans
+      (Spec.PolySame.ext_reverse _ _)).trans
+      ((Spec.PolySame.of_rewrite (Spec.PolyRewrite.holes_perm _ (List.Perm.swap h2 h1 []))).trans
+        (Spec.PolySame.hole_reverse _ [h2] [] h1))) g
+
+/-- [T] multi-polygon with one member re-written. -/
+theorem relateSpec_multiPolygon_member {q q' : Poly} (h : Spec.PolySame q q') (pre post : List Poly) (g : Geom) :
+    relateSpec (.multiPolygon (pre ++ q :: post)) g = relateSpec (.multiPolygon (pre ++ q' :: post)) g :=
+  relateSpec_same_parts
+    (Spec.PartsSame.members [] List.Forall₂.nil (Spec.forall₂_polySame_at h pre post))
+    (Spec.PartsSame.refl _)
+
+/-- [T] line string reversed. -/
+theorem relateSpec_lineString_reverse (cs : List Pt) (g : Geom) :
+    relateSpec (.lineString cs) g = relateSpec (.lineString cs.reverse) g :=
+  relateSpec_same_parts
+    (Spec.PartsSame.members [] (List.Forall₂.cons (Spec.CurveSame.reverse cs) List.Forall₂.nil) List.Forall₂.nil)
+    (Spec.PartsSame.refl _)
+
+/-- [T] line with its end points exchanged. -/
+theorem relateSpec_line_swap (a b : Pt) (g : Geom) : relateSpec (.line a b) g = relateSpec (.line b a) g :=
+  relateSpec_same_parts
+    (Spec.PartsSame.members [] (List.Forall₂.cons (Spec.CurveSame.reverse [a, b]) List.Forall₂.nil) List.Forall₂.nil)
+    (Spec.PartsSame.refl _)
+
+/-- [T] multi-line-string with one member re-written (direction / closed start). -/
+theorem relateSpec_multiLineString_member {c c' : List Pt} (h : Spec.CurveSame c c') (pre post : List (List Pt))
+    (g : Geom) :
+    relateSpec (.multiLineString (pre ++ c :: post)) g = relateSpec (.multiLineString (pre ++ c' :: post)) g :=
+  relateSpec_same_parts
+    (Spec.PartsSame.members [] (Spec.forall₂_curveSame_at h pre post) List.Forall₂.nil)
+    (Spec.PartsSame.refl _)
+
+example (l0 c : List Pt) (g : Geom) :
+    relateSpec (.multiLineString [l0, c]) g = relateSpec (.multiLineString [l0, c.reverse]) g :=
+  relateSpec_multiLineString_member (Spec.CurveSame.reverse c) [l0] [] g
+
+/-- the same in the second position -/
+example (ext : List Pt) (g : Geom) :
+    relateSpec g (.polygon ⟨ext, []⟩) = relateSpec g (.polygon ⟨ext.reverse, []⟩) :=
+  relateSpec_same_parts (Spec.PartsSame.refl _)
+    (Spec.PartsSame.members [] List.Forall₂.nil
+      (List.Forall₂.cons (Spec.PolySame.ext_reverse ext []) List.Forall₂.nil))
+
+/-- [T] geometry collection with its members in another order: same point location, same matrix. -/
+theorem relateSpec_collection_perm {gs gs' : List Geom} (h : gs.Perm gs') (g : Geom) :
+    relateSpec (.collection gs) g = relateSpec (.collection gs') g :=
+  relateSpec_congr_parts (Spec.PartsEquiv.collection_perm h) (Spec.PartsEquiv.refl _)
+
+theorem locate_collection_perm {gs gs' : List Geom} (h : gs.Perm gs') (p : Pt) :
+    locate (.collection gs) p = locate (.collection gs') p :=
+  (Spec.PartsEquiv.collection_perm h).loc p
+
+example (g1 g2 g : Geom) : relateSpec (.collection [g1, g2]) g = relateSpec (.collection [g2, g1]) g :=
+  relateSpec_collection_perm (List.Perm.swap _ _ _) g
 
 end Geo.Proofs.C01
